@@ -1,7 +1,7 @@
 (* Extraction of the executable EDIF mechanism models for the correspondence runs of engine
    `edif` (C03, C05). ExtrOcamlBasic only; nat, N, positive stay extracted inductives. *)
 From Coq Require Extraction ExtrOcamlBasic.
-From SV Require Import Base.Base Fmt.EdifTopo Fmt.EdifLex Fmt.EdifName Fmt.EdifCable Fmt.EdifBus Fmt.EdifNets Fmt.EdifFile.
+From SV Require Import Base.Base Fmt.EdifTopo Fmt.EdifLex Fmt.EdifName Fmt.EdifCable Fmt.EdifBus Fmt.EdifNets Fmt.EdifFile Fmt.EdifEmit.
 Extraction Language OCaml.
 Extraction "edif_model.ml"
   topological_sort topo_outer topo_fuel deps_of
@@ -9,4 +9,5 @@ Extraction "edif_model.ml"
   sep_bracket sep_underscore net_bit dec int_of bit_ident bit_name
   mb_add mb_merge assemble wire_of cab_is_array member_outer member_inner member_read
   emit_cable read_cable read_nets emit_nets norm_entry
-  elab_text elab_tokens elab_file read_first.
+  elab_text elab_tokens elab_file read_first
+  emit_file emit_text prepass norm_file rt_status rt_check file_eqb ordered writable params_w.
